@@ -225,6 +225,13 @@ def run(chk, tier, seed):
         chk.cov["synthesised_callback_probes"] = found
     if offenders:
         chk.obligation("C12: offending items found by evaluating the checkers per item", False, "\n".join(offenders))
+    # run-time side of the dynamic-root re-branding: a handle of a DEAD arena must not be re-branded by a later arena
+    # whose set reuses the dead set's address (harness/src/stale.rs, shared with C14 / C20)
+    try:
+        from props import core
+        core.stale_handle_scenarios(chk, "C12")
+    except Exception as e:  # pragma: no cover
+        chk.notes.append("stale-handle scenarios not run: %s" % e)
     for pid in list(res)[:6]:
         chk.sample("%s: %s" % (pid, verdicts[pid]))
     chk.cov["traces_validated_against_impl"] = len(res)
@@ -273,6 +280,9 @@ def _synthesise_callback_escapes(chk, host, names):
 def replay(path):
     """Re-compile (and run, if accepted) the probe stored in a replay file against the current /repo."""
     txt = open(path).read()
+    if re.search(r"(?m)^stalehandle: ", txt):
+        from props import core
+        return core.replay("C12", path)
     if "no concrete failing input was found" in txt[:200]:
         print(txt)   # names the theorem / correspondence that no longer checks; nothing to re-run
         return 0
